@@ -7,6 +7,7 @@ import Indi.Generated.Registry
 import Indi.Spec.Msg
 import Indi.Model.RtrGlue
 import Indi.Spec.Rtr
+import Indi.Spec.Switch
 
 open Indi Indi.Wire
 
@@ -69,8 +70,50 @@ def encRState (σ : Rtr.State) : String :=
     String.intercalate ";" (σ.blob.map fun (c, d) => toString c ++ ":" ++
       String.intercalate "," (d.map fun (k, p) => encOpt k ++ "=" ++ encPolicy p))
 
+/-! switch component: states are strings of 0/1 prefixed by `b` -/
+
+def pBits : P (List Bool) := do
+  let t ← tok
+  match t.toList with
+  | 'b' :: r => if r.all (fun c => c = '0' || c = '1') then pure (r.map fun c => c = '1') else fail
+  | _ => fail
+
+def encBits (l : List Bool) : String := "b" ++ String.ofList (l.map fun b => if b then '1' else '0')
+
+def pRule : P Switch.Rule := do
+  let t ← tok
+  match t with
+  | "OneOfMany" => pure .oneOfMany
+  | "AtMostOne" => pure .atMostOne
+  | "AnyOfMany" => pure .anyOfMany
+  | _ => fail
+
+def pSwOp : P Switch.Op := do
+  let t ← tok
+  match t with
+  | "A" => do let i ← pNat; let v ← pBool; pure (.assign i v)
+  | "W" => do
+    let ch ← pList (do let i ← pNat; let v ← pBool; pure (i, v))
+    pure (.write ch)
+  | "S" => do let ns ← pList pNat; pure (.select ns)
+  | _ => fail
+
+def encSwStep (r : List (List Bool) × List Bool) : String :=
+  String.intercalate "," (r.1.map encBits) ++ ">" ++ encBits r.2
+
 def handle (ts : List String) : String :=
   match ts with
+  | "sw" :: "run" :: rest =>
+    match runP (do let r ← pRule; let v ← pBits; let ops ← pList pSwOp; pure (r, v, ops)) rest with
+    | some (r, v, ops) => String.intercalate " | " ((Switch.run r v ops).map encSwStep)
+    | none => "bad-op"
+  | "spec" :: "sw" :: rest =>
+    match runP (do
+        let r ← pRule; let before ← pBits; let op ← pSwOp
+        let snaps ← pList pBits; let after ← pBits
+        pure (r, before, op, snaps, after)) rest with
+    | some (r, before, op, snaps, after) => encBool (Spec.Switch.holds r before op snaps after)
+    | none => "bad-op"
   | "router" :: "hist" :: rest =>
     match runP (pList pOp) rest with
     | some h => encTrace (Rtr.trace Rtr.init h)
